@@ -16,6 +16,9 @@ def run(chk):
                        'stores no rip-relative image address to non-stack memory. Not decided: that jobs complete with correct results '
                        'after re-attach (dynamic).')
     inits.rule_reattach(chk, P)
+    # the allocation table rows (size, road-block offset) describe the manager types the variants reset and the kernels take: on
+    # re-attach the road blocks are stamped again at the table's offsets, into live manager state if a row names the wrong type
+    inits.rule_reset(chk, P, 'P4.')
     inits.rule_handlers(chk, P, 'P2a', 'P2b', 'P2c')
     inits.rule_no_image_address(chk, P)
     rule_asm_image_stores(chk)
